@@ -283,6 +283,61 @@ theorem gen_real_inplace_eq (A C : Nat) (L : Nat) (st st' : φ) (ell : Nat) (m :
   rw [gen_real_inplace A L st ell m hm hl, gen_real _ C L st' ell m hm hl]
 end
 
+/-! ### `Modes + Modes`, `Modes − Modes` (the ufunc branch both operators and methods reach), from the source -/
+section
+variable {α : Type} [Scalar α] {φ : Type} [FMem φ α] [LawfulFMem φ α]
+
+theorem ysize0 (L : Int) : Ysize 0 L = (L + 1) * (L + 1) := by unfold Ysize; ring
+theorem ysize_m1 : Ysize 0 ((0 : Int) - 1) = 0 := by decide
+
+/-- the row a zero-filled (or cleared) result receives: the first operand's row, then the second's added / subtracted on top -/
+theorem rows_cell (op : Cx α → Cx α → Cx α) (a1 a2 : Int → Cx α) (R : Nat) (n1 n2 : Nat) (st : φ) (p : Int) :
+    frdC (α := α) (loopN n2 (fun k2 s => fwrC (α := α) s R (k2 : Int) (op (frdC (α := α) s R (k2 : Int)) (a2 (k2 : Int))))
+      (loopN n1 (fun k1 s => fwrC (α := α) s R (k1 : Int) (a1 (k1 : Int))) st)) R p
+      = (if 0 ≤ p ∧ p < n2 then op (if 0 ≤ p ∧ p < n1 then a1 p else frdC (α := α) st R p) (a2 p)
+         else if 0 ≤ p ∧ p < n1 then a1 p else frdC (α := α) st R p) := by
+  have e1 : (fun (k1 : Nat) (s : φ) => fwrC (α := α) s R (k1 : Int) (a1 (k1 : Int)))
+      = (fun (k : Nat) (s : φ) => fwrC (α := α) s R ((0 : Int) + (k : Int)) ((fun (k : Nat) => a1 ((k : Nat) : Int)) k)) := by
+    funext k s; simp only [Int.zero_add]
+  have e2 : (fun (k2 : Nat) (s : φ) => fwrC (α := α) s R (k2 : Int) (op (frdC (α := α) s R (k2 : Int)) (a2 (k2 : Int))))
+      = (fun (k : Nat) (s : φ) => fwrC (α := α) s R ((0 : Int) + (k : Int)) ((fun (k : Nat) z => op z (a2 ((k : Nat) : Int))) k (frdC (α := α) s R ((0 : Int) + (k : Int))))) := by
+    funext k s; simp only [Int.zero_add]
+  rw [e1, e2, run_update n2 R 0 (fun (k : Nat) z => op z (a2 ((k : Nat) : Int))), run_set n1 R 0 (fun (k : Nat) => a1 ((k : Nat) : Int))]
+  simp only [Int.zero_add, Int.sub_zero]
+  by_cases h2 : 0 ≤ p ∧ p < n2
+  · have : ((p.toNat : Nat) : Int) = p := by omega
+    simp only [h2, if_true, this, and_self]
+  · by_cases h1 : 0 ≤ p ∧ p < n1
+    · have : ((p.toNat : Nat) : Int) = p := by omega
+      simp only [h2, h1, if_true, if_false, this, and_self]
+    · simp only [h2, h1, if_false]
+
+/-- **`f + g`** from the source (both Modes store from `ell = 0`; `L1`, `L2` their `ell_max`): entry `p` of the result is `f[p] + g[p]` where both
+    exist, the one that exists where only one does (on top of what the cleared result held: `0.0`) -/
+theorem gen_add_rows (a1 a2 : Int → Cx α) (R : Nat) (L1 L2 : Nat) (st : φ) (p : Int) :
+    frdC (α := α) (Gen.Modes_add_rows (α := α) a1 a2 R 0 L1 0 L2 st) R p
+      = (if 0 ≤ p ∧ p < ((L2 + 1) * (L2 + 1) : Nat) then Cx.add (if 0 ≤ p ∧ p < ((L1 + 1) * (L1 + 1) : Nat) then a1 p else frdC (α := α) st R p) (a2 p)
+         else if 0 ≤ p ∧ p < ((L1 + 1) * (L1 + 1) : Nat) then a1 p else frdC (α := α) st R p) := by
+  unfold Gen.Modes_add_rows
+  have hc : ((0 : Int) - 1 + 1) * ((0 : Int) - 1 + 1) = 0 := by decide
+  have e1 : ((L1 : Int) + 1) * ((L1 : Int) + 1) = (((L1 + 1) * (L1 + 1) : Nat) : Int) := by push_cast; ring
+  have e2 : ((L2 : Int) + 1) * ((L2 : Int) + 1) = (((L2 + 1) * (L2 + 1) : Nat) : Int) := by push_cast; ring
+  simp only [Int.min_self, ysize0, hc, e1, e2, Int.zero_add, Int.sub_zero, Int.toNat_natCast]
+  exact rows_cell Cx.add a1 a2 R _ _ st p
+
+/-- **`f − g`** from the source -/
+theorem gen_subtract_rows (a1 a2 : Int → Cx α) (R : Nat) (L1 L2 : Nat) (st : φ) (p : Int) :
+    frdC (α := α) (Gen.Modes_subtract_rows (α := α) a1 a2 R 0 L1 0 L2 st) R p
+      = (if 0 ≤ p ∧ p < ((L2 + 1) * (L2 + 1) : Nat) then Cx.sub (if 0 ≤ p ∧ p < ((L1 + 1) * (L1 + 1) : Nat) then a1 p else frdC (α := α) st R p) (a2 p)
+         else if 0 ≤ p ∧ p < ((L1 + 1) * (L1 + 1) : Nat) then a1 p else frdC (α := α) st R p) := by
+  unfold Gen.Modes_subtract_rows
+  have hc : ((0 : Int) - 1 + 1) * ((0 : Int) - 1 + 1) = 0 := by decide
+  have e1 : ((L1 : Int) + 1) * ((L1 : Int) + 1) = (((L1 + 1) * (L1 + 1) : Nat) : Int) := by push_cast; ring
+  have e2 : ((L2 : Int) + 1) * ((L2 : Int) + 1) = (((L2 + 1) * (L2 + 1) : Nat) : Int) := by push_cast; ring
+  simp only [Int.min_self, ysize0, hc, e1, e2, Int.zero_add, Int.sub_zero, Int.toNat_natCast]
+  exact rows_cell Cx.sub a1 a2 R _ _ st p
+end
+
 /-- non-vacuity: IEEE doubles, spin 1, `ell_max = 3`, the cell (2, −1), in place -/
 example (st : HFMem Float) :
     frdC (α := Float) (Gen.Modes_conjugate_inplace_loop (α := Float) 7 ((3 : Nat) : Int) 0 1 st) 7 (((2 : Nat) : Int) * (((2 : Nat) : Int) + 1) + (-1))
